@@ -20,6 +20,11 @@ type solverSpec struct {
 var solvers = []solverSpec{
 	{"z3-new", func(f string, t int) []string { return []string{"z3-new", fmt.Sprintf("-T:%d", t), f} }},
 	{"z3", func(f string, t int) []string { return []string{"z3", fmt.Sprintf("-T:%d", t), f} }},
+	// the same solver without its automatic configuration (plain E-matching set-up): decides
+	// several frame-style quantified goals in under a second that the default strategy loses itself in
+	{"z3-new-plain", func(f string, t int) []string {
+		return []string{"z3-new", fmt.Sprintf("-T:%d", t), "smt.auto_config=false", f}
+	}},
 	{"cvc5", func(f string, t int) []string {
 		return []string{"cvc5", "--produce-models", fmt.Sprintf("--tlimit=%d", t*1000), f}
 	}},
@@ -143,7 +148,7 @@ func discharge(o *Obligation, workdir string, idx int, timeout int, all bool) {
 				unsat = n
 			}
 		}
-		o.Solver = fmt.Sprintf("z3-new=%s z3=%s cvc5=%s", results["z3-new"], results["z3"], results["cvc5"])
+		o.Solver = fmt.Sprintf("z3-new=%s z3=%s cvc5=%s z3-new-plain=%s", results["z3-new"], results["z3"], results["cvc5"], results["z3-new-plain"])
 		switch {
 		case sat != "" && unsat != "":
 			o.Result = "disagreement"
